@@ -26,7 +26,10 @@ def templates_in(fx, path, sy=None):
     """all format templates used in a function body (canonical pieces)"""
     out = []
     b = fx.bodies[path]
-    for n in F.walk(b["body"]):
+    nodes = list(F.walk(b["body"]))
+    for cb in fx.closures_of(path):
+        nodes += list(F.walk(cb["body"]))       # templates used inside the function's closures count as its own
+    for n in nodes:
         if n.get("k") == "Call" and "fn" in n and n["fn"]["path"].startswith("std::fmt::Arguments") and n["fn"]["path"].endswith(("::new", "::from_str")):
             a0 = F.strip(n["args"][0])
             if a0.get("k") == "Lit" and a0["lit"]["t"] == "bytes":
@@ -459,33 +462,90 @@ def check_format_helpers(fx, rep, rule):
         res = sy.eval_body(b)
         names = [prm["pat"]["name"] for prm in b["params"] if prm.get("pat")]
         line, it = ("in", names[1]), ("in", names[2])
-        pk = ("peek", call("std::iter::Iterator::peekable", it))
-        ok_ = len(sy.loop_order) == 1
-        desc = []
-        if ok_:
-            L = sy.loops[sy.loop_order[0]]
-            # before the loop: peek none -> single verbatim write and return
-            early = [(st, o) for st, o in res if not any(e[0] in ("loopsum", "inloop") for e in st.effects)]
-            for st, (k, v) in early:
-                a = fc.assignment(st.conds)
-                w = [e for e in st.effects if e[0] == "call" and e[1].endswith("write_fmt")]
-                good = a.get(fc.canon_atom(("is", pk, "Some"))[0]) is False and len(w) == 1 and \
-                    w[0][2][1] == ("fmtargs", (("hole",), ("txt", "\n")), (("display", line),))
-                desc.append("no frames: %s" % [S.tstr(e)[:80] for e in w])
-                ok_ = ok_ and good
-            ok_ = ok_ and len(early) >= 1
-            # in the loop: exactly one indented write per element
-            for st, (k, v) in L["paths"]:
-                a = fc.assignment(st.conds, R.rw_iter)
-                w = [fc.rewrite(e, R.rw_iter) for e in st.effects if e[0] == "call" and e[1].endswith("write_fmt")]
-                if a.get(("is", R.NEXT, "Some")) is True:
-                    good = len(w) == 1 and w[0][2][1] == ("fmtargs", (("txt", "    "), ("hole",), ("txt", "\n")), (("display", R.ELEM),))
-                    ok_ = ok_ and good
-                    desc.append("per frame: %s" % [S.tstr(e)[:80] for e in w])
-                else:
-                    ok_ = ok_ and not w
+        ok_, desc = format_frames_forms(fx, sy, res, line, it, names[2])
         rep.check(rule, "%s/helper/format_frames" % rule, ok_, loc=F.short_file(b["sp"]), found=desc,
-                  expected="no remapped frame -> the input line once; otherwise one four-space-indented line per remapped frame")
+                  expected="no remapped frame -> the input line once; otherwise one four-space-indented line per remapped frame, in order")
+
+
+def format_frames_forms(fx, sy, res, line, it, it_name):
+    """accepted shapes of format_frames (all: nothing remapped -> the input line verbatim once; else one indented line per frame):
+       A  peekable + peek().is_none() early return, then `for f in it`
+       B  `let Some(first) = it.next() else { verbatim }`, indented(first), then `for f in it`
+       C  peekable + peek().is_some() -> it.try_for_each(|f| indented(f)), else verbatim"""
+    VERB = ("fmtargs", (("hole",), ("txt", "\n")), (("display", line),))
+
+    def indented(x):
+        return ("fmtargs", (("txt", "    "), ("hole",), ("txt", "\n")), (("display", x),))
+    pk = fc.canon_atom(("is", ("peek", call("std::iter::Iterator::peekable", it)), "Some"))[0]
+    desc = []
+    okf = True
+    n_empty = n_some = 0
+    loops = [sy.loops[k_] for k_ in sy.loop_order]
+    if len(loops) > 1:
+        return False, ["%d loops" % len(loops)]
+    for st, (k, v) in res:
+        a = fc.assignment(st.conds)
+        pre = []
+        for e in st.effects:
+            if e[0] in ("loopsum", "inloop"):
+                break
+            pre.append(e)
+        if any(e[0] == "inloop" for e in st.effects):
+            continue        # exits from inside the loop (a failed write): covered by the per-iteration paths
+        w = [e for e in pre if e[0] == "call" and e[1].endswith("write_fmt")]
+        nexts = [e for e in pre if e[0] == "call" and R.is_next(e[1]) and e[2][0] == ("place", it_name, ())]
+        tfe = [e for e in pre if e[0] == "call" and e[1].endswith("Iterator::try_for_each")]
+        has = a.get(pk)
+        nx = None
+        if has is None and nexts:
+            nx = ("mcall",) + tuple(nexts[0][1:])
+            has = a.get(fc.canon_atom(("is", nx, "Some"))[0])
+        if has is False:
+            n_empty += 1
+            good = len(w) == 1 and w[0][2][1] == VERB and not tfe and not any(e[0] == "loopsum" for e in st.effects)
+            desc.append("no frames: %s" % [S.tstr(e)[:80] for e in w])
+        elif has is True:
+            if tfe:
+                clo = tfe[0][2][1]
+                good = len(w) == 0 and len(tfe) == 1 and clo[0] == "closure"
+                if good:
+                    try:
+                        paths = sy.apply(clo, [("bound", 0)], S.St(), {"sp": "?"})
+                    except S.Undecidable:
+                        paths = []
+                    cw = [[e for e in st2.effects if e[0] == "call"] for st2, o2 in paths]
+                    good = len(paths) == 1 and len(cw[0]) == 1 and cw[0][0][1].endswith("write_fmt") and cw[0][0][2][1] == indented(("bound", 0)) \
+                        and paths[0][1][1] == ("mcall",) + tuple(cw[0][0][1:])
+                desc.append("frames: try_for_each(|f| indented(f)): %s" % good)
+                n_some += 1
+            else:
+                # the failed-first-write exit has no loopsum; the normal path continues into the loop
+                first_ok = (nx is None and not w) or (nx is not None and len(w) == 1 and w[0][2][1] == indented(mk_payload(nx, "Some", "0")))
+                good = first_ok
+                if any(e[0] == "loopsum" for e in st.effects):
+                    n_some += 1
+                desc.append("frames: first %s" % ([S.tstr(e)[:80] for e in w] or "left to the loop"))
+        else:
+            good = False
+            desc.append("undecided emptiness test on a path")
+        okf = okf and good
+    for L in loops:
+        for st, (k, v) in L["paths"]:
+            a = fc.assignment(st.conds, R.rw_iter)
+            w = [fc.rewrite(e, R.rw_iter) for e in st.effects if e[0] == "call" and e[1].endswith("write_fmt")]
+            if a.get(("is", R.NEXT, "Some")) is True:
+                good = len(w) == 1 and w[0][2][1] == indented(R.ELEM)
+                okf = okf and good
+                desc.append("per frame: %s" % [S.tstr(e)[:80] for e in w])
+            else:
+                okf = okf and not w
+        import readers as RD
+        drv = RD.driver_of_loop(L)
+        okd = drv is not None and (drv == it or drv == call("std::iter::Iterator::peekable", it) or (drv[0] in ("after", "place") and it_name in repr(drv)))
+        okf = okf and okd
+        desc.append("loop over %s" % (S.tstr(drv)[:80] if drv else "?"))
+    okf = okf and n_empty >= 1 and n_some >= 1
+    return okf, desc
 
 
 # ---- C07.6: the two line classifiers as decision structures (delimiters, split directions) ---------------------------
